@@ -86,24 +86,27 @@ def _strip(node):
         return node
 
 
-def tr(node, leaves, where):
-    """-> Lean expression text.  `leaves` maps ast.unparse(subexpression) to a Lean name."""
+def tr2(node, leaves, where):
+    """-> (Lean expression text, the same expression as Python text over the leaf names, re-shapings dropped).
+    `leaves` maps ast.unparse(subexpression) to a Lean name."""
     node = _strip(node)
     key = ast.unparse(node)
     if key in leaves:
-        return leaves[key]
+        return leaves[key], leaves[key]
 
     def bad(what):
         raise Lost(f"{where}: unsupported {what}: {plain(key)[:60]}")
 
     if isinstance(node, ast.Constant) and isinstance(node.value, int) and not isinstance(node.value, bool):
         if node.value in (0, 1):
-            return str(node.value)
+            return str(node.value), str(node.value)
         bad("integer literal")
     if isinstance(node, ast.BinOp):
         ops = {ast.Add: "+", ast.Sub: "-", ast.Mult: "*", ast.Div: "/"}
         if type(node.op) in ops:
-            return f"({tr(node.left, leaves, where)} {ops[type(node.op)]} {tr(node.right, leaves, where)})"
+            (l, lp), (r, rp) = tr2(node.left, leaves, where), tr2(node.right, leaves, where)
+            o = ops[type(node.op)]
+            return f"({l} {o} {r})", f"({lp} {o} {rp})"
         bad("operator")
     if isinstance(node, ast.Call) and isinstance(node.func, ast.Attribute) \
             and isinstance(node.func.value, ast.Name) and node.func.value.id == "np":
@@ -111,21 +114,28 @@ def tr(node, leaves, where):
         args = node.args
         if node.keywords:
             bad("keyword arguments")
+        sub = [tr2(a, leaves, where) for a in args]
         if name in ("abs", "absolute") and len(args) == 1:
-            return f"(abs {tr(args[0], leaves, where)})"
+            return f"(abs {sub[0][0]})", f"np.abs({sub[0][1]})"
         if name == "log" and len(args) == 1:
-            return f"(log {tr(args[0], leaves, where)})"
+            return f"(log {sub[0][0]})", f"np.log({sub[0][1]})"
         if name == "minimum" and len(args) == 2:
-            return f"(minimum {tr(args[0], leaves, where)} {tr(args[1], leaves, where)})"
+            return f"(minimum {sub[0][0]} {sub[1][0]})", f"np.minimum({sub[0][1]}, {sub[1][1]})"
         if name == "maximum" and len(args) == 2:
-            return f"(maximum {tr(args[0], leaves, where)} {tr(args[1], leaves, where)})"
+            return f"(maximum {sub[0][0]} {sub[1][0]})", f"np.maximum({sub[0][1]}, {sub[1][1]})"
         bad(f"call np.{name}")
     if isinstance(node, ast.Compare) and len(node.ops) == 1 and isinstance(node.ops[0], ast.Gt):
         c = node.comparators[0]
         if isinstance(c, ast.Constant) and c.value == 0:
-            return f"(if gt0 {tr(node.left, leaves, where)} then 1 else 0)"
+            x, xp = tr2(node.left, leaves, where)
+            return f"(if gt0 {x} then 1 else 0)", f"({xp} > 0)"
         bad("comparison")
     bad(type(node).__name__)
+
+
+def tr(node, leaves, where):
+    """-> Lean expression text.  `leaves` maps ast.unparse(subexpression) to a Lean name."""
+    return tr2(node, leaves, where)[0]
 
 
 def num(node, where):
@@ -173,6 +183,10 @@ class Ctx:
     def __init__(self, src):
         self.F = Flow(src, roots=ROOTS)
         self._r = {}
+        self.exprs = {}       # generated definition -> {"python", "params"} (for the cross-check family)
+
+    def py(self, name, python, params):
+        self.exprs[name] = {"python": python, "params": list(params)}
 
     def region(self, fname):
         if fname not in self._r:
@@ -269,7 +283,9 @@ def a_loglik_sparse(C):
             return "m"
         return None
     body = fold_where(e.left.args[0], pred)
-    term = tr(body, {"x": "x", "m": "m"}, "loglik.sparse")
+    term, py = tr2(body, {"x": "x", "m": "m"}, "loglik.sparse")
+    C.py("llTermSparse", py, ["x", "m"])
+    C.py("llCombine", "(terms - sumFactor0)", ["terms", "sumFactor0"])
     shown = text(fold_where(e.left, lambda n: "np.sum(A, axis=1)" if pred(n) == "m" else (f"{data}.vals" if pred(n) == "x" else None)))
     return ["/-- sparse path, one stored entry: the summand of "
             f"`{shown}` (`x` the stored value, `m = np.sum(A, axis=1)` the model there). -/",
@@ -326,7 +342,8 @@ def a_loglik_dense(C):
                 and plain(n.value) == plain(x.value).replace(data, model):
             return "m"
         return None
-    term = tr(fold_where(a.value, pred), {"x": "x", "m": "m"}, "loglik.dense")
+    term, py = tr2(fold_where(a.value, pred), {"x": "x", "m": "m"}, "loglik.dense")
+    C.py("llTermDense", f"(0.0 if x == 0 else {py})", ["x", "m"])
     shown = text(fold_where(a.value, lambda n: {"x": "dX[i, j]", "m": "dM[i, j]"}.get(pred(n))))
     return ["/-- dense path, one cell: `if dX[i, j] == 0: pass` / `else: f += "
             f"{shown}`, then `f -= np.sum(Model.factor_matrices[0])` "
@@ -373,7 +390,8 @@ def a_mu_kkt(C):
         raise Lost("mu.kkt: not np.max(..)")
     up = _mu_update(C)
     leaves = {text(up.target_full): "a", text(up.value): "phi"}
-    e = tr(value.args[0], leaves, "mu.kkt")
+    e, py = tr2(value.args[0], leaves, "mu.kkt")
+    C.py("kktEntry", py, ["a", "phi"])
     shown = plain(fold(value, {text(up.target_full): "M.factor_matrices[n]", text(up.value): "Phi[n]"}))
     return [f"/-- entry of the array under `np.max` in `kktModeViolations[n] = {shown[:100]}` -/",
             "def kktEntry [Sub α] [One α] (abs : α → α) (minimum : α → α → α) (a phi : α) : α := " + e]
@@ -381,7 +399,8 @@ def a_mu_kkt(C):
 
 def a_mu_update(C):
     up = _mu_update(C)
-    e = tr(up.value, {text(up.value): "phi"}, "mu.update")
+    e, py = tr2(up.value, {text(up.value): "phi"}, "mu.update")
+    C.py("muUpdate", f"(a * {py})", ["a", "phi"])
     return ["/-- `M.factor_matrices[n] *= Phi[n]`, one entry -/",
             "def muUpdate [Mul α] (a phi : α) : α := a * " + e]
 
@@ -431,9 +450,10 @@ def _row_parts(C, fname):
             # the same value with the re-shapings dropped
             leaves[text(_strip(copy.deepcopy(v)))] = "g"
             grads += g
-    e = tr(value.args[0], leaves, f"row.kkt[{fname}]")
+    e, py = tr2(value.args[0], leaves, f"row.kkt[{fname}]")
     if "g" not in e or "m" not in e:
         raise Lost(f"row.kkt[{fname}]: the test does not combine the row and its gradient")
+    C.py("rowKktEntry", py, ["m", "g"])
     return e, grads
 
 
@@ -457,7 +477,9 @@ def a_row_grad(C):
             raise Lost(f"row.grad[{name}]: no gradient of the shape `<ones> - <phi>`")
         for g in grads:
             leaves = {text(_strip(g.left)): "1", text(_strip(g.right)): "phi"}
-            seen.add(tr(g, leaves, f"row.grad[{name}]"))
+            lean, py = tr2(g, leaves, f"row.grad[{name}]")
+            seen.add(lean)
+            C.py("rowGrad", py, ["phi"])
     if len(seen) != 1:
         raise Lost("row.grad: pdnr and pqnr differ")
     return ["/-- gradient entry of the row sub-problem: `(e_vec - phi_row)` (pdnr), "
@@ -503,10 +525,13 @@ def _linesearch(C):
                  and F.sym(n.id)["kind"] == "in" and F.sym(n.id)["region"] == W.id]
         steps = [sid for sid in set(steps) if plain(W.pre_env.get(F.sym(sid)["var"], ast.Name(id="?"))) == step_len]
         step = one(steps, "ls.trial: the step length")
-        t_trial = tr(trial.old, {m_old: "mOld", step: "step", direction: "d"}, "ls.trial")
-        t_fb = tr(fb.old, {m_old: "mOld", phi_row: "phi"}, "ls.fallback")
-        es = {tr(e.value, {text(e.old): "m"}, "ls.project") for e in projs}
-        t_pr = one(es, "ls.project: the two projections")
+        t_trial, p_trial = tr2(trial.old, {m_old: "mOld", step: "step", direction: "d"}, "ls.trial")
+        t_fb, p_fb = tr2(fb.old, {m_old: "mOld", phi_row: "phi"}, "ls.fallback")
+        es = {tr2(e.value, {text(e.old): "m"}, "ls.project") for e in projs}
+        t_pr, p_pr = one(es, "ls.project: the two projections")
+        C.py("lsTrial", p_trial, ["mOld", "step", "d"])
+        C.py("lsFallback", p_fb, ["mOld", "phi"])
+        C.py("project", f"(m * {p_pr})", ["m"])
         # the result: (model_new, f_old, f_1, f_new, num_evals)
         res = R.result
         if not (isinstance(res, ast.Tuple) and len(res.elts) == 5):
@@ -559,7 +584,8 @@ def _linesearch(C):
             raise Lost("ls.armijo: the rejection test is not `<gDotd> > 0 or np.sum(<point>) < <tol>`")
         gd = gpos.left
         tol = num(small.comparators[0], "const.minDescentTol")
-        out["armijo"] = tr(arm.comparators[0], {text(st["f_old"]): "fOld", suff: "c", text(gd): "gd"}, "ls.armijo")
+        out["armijo"], p_arm = tr2(arm.comparators[0], {text(st["f_old"]): "fOld", suff: "c", text(gd): "gd"}, "ls.armijo")
+        C.py("armijoBound", p_arm, ["fOld", "c", "gd"])
         out["minDescentTol"] = tol
 
     def small_step():
@@ -782,11 +808,25 @@ def build():
             lost.append(f"{a.__name__[2:]}: {type(e).__name__}: {e}")
     lost = list(dict.fromkeys(lost))
     text_ = HEADER + "\n" + "\n".join(body) + "\nend Pyttb.CpApr.Gen\n"
-    return text_, lost, {"anchors": len(ANCHORS), "inlined_helpers": list(C.F.inlined)}
+    # an expression is offered for cross-checking only if its definition was emitted
+    emitted = "\n".join(body)
+    exprs = {k: v for k, v in C.exprs.items() if f"def {k} " in emitted}
+    return text_, lost, {"anchors": len(ANCHORS), "inlined_helpers": list(C.F.inlined), "expressions": exprs}
+
+
+def formulas():
+    """Python expressions (over the parameter names, re-shapings dropped) behind the generated definitions, for the
+    cross-check family: {definition: {"python", "params"}}, lost anchors."""
+    _, lost, desc = build()
+    return desc.get("expressions", {}), lost
 
 
 def run(prop, info):
     text_, lost, desc = build()
+    if text_ is None:
+        # the source could not be read at all: the pinned definitions (never a stale file of another tree)
+        pin = Path(__file__).parent / "pinned" / OUT.name
+        text_ = pin.read_text() if pin.exists() else None
     if text_ is not None:
         OUT.parent.mkdir(parents=True, exist_ok=True)
         if not OUT.exists() or OUT.read_text() != text_:
